@@ -8,7 +8,7 @@ WT = '/tmp/wt/detect'
 
 FILEMAP = [   # (path fragment, obligation-id substrings for --only, extra properties worth trying)
     ('riemann2D', [], ['C19']),
-    ('riemann/', ['igeos', 'riemann', 'waves', 'fan', 'rh.'], ['C02', 'C04', 'C09', 'C10', 'C17', 'C07', 'C08', 'C06', 'C20', 'C03', 'C01']),
+    ('riemann/', ['igeos', 'riemann', 'waves', 'fan', 'rh.', 'geos'], ['C02', 'C04', 'C09', 'C10', 'C17', 'C07', 'C08', 'C06', 'C20', 'C03', 'C01']),
     ('sedov', ['sedov'], ['C02', 'C10', 'C11', 'C17', 'C08', 'C06', 'C01', 'C20']),
     ('cog/', ['cog'], ['C01', 'C02', 'C03', 'C05', 'C07', 'C08', 'C10', 'C20']),
     ('noh2', ['noh2'], ['C01', 'C03', 'C07', 'C08', 'C20', 'C06']),
@@ -42,7 +42,7 @@ def main():
         sh('git -C /repo worktree add -q --detach %s HEAD' % WT)
     else:
         sh('git checkout -q --detach $(git -C /repo rev-parse HEAD)', cwd=WT)
-    env = dict(os.environ, EXACTPACK_REPO=WT)
+    env = dict(os.environ, EXACTPACK_REPO=WT, SYMX_EVIDENCE_DIR='/tmp/wt/detect_evidence')
     rows = []
     for d in sorted(glob.glob(OUT + '/*/')):
         sid = os.path.basename(d.rstrip('/'))
@@ -71,6 +71,11 @@ def main():
         sh('git checkout -q -- . && git clean -qfd', cwd=WT)
         rc, out = sh('git apply %s' % os.path.join(d, 'patch.diff'), cwd=WT)
         if rc != 0:
+            # /repo has moved on by later fix: commits since the seed was written: apply with fuzz
+            sh('git checkout -q -- . && git clean -qfd', cwd=WT)
+            rc, out = sh('patch -p1 --fuzz=3 -s < %s' % os.path.join(d, 'patch.diff'), cwd=WT)
+            sh('find . -name "*.orig" -delete; find . -name "*.rej" -delete', cwd=WT)
+        if rc != 0:
             meta['detected_by'] = {'error': 'patch does not apply'}
             json.dump(meta, open(mp, 'w'), indent=1)
             rows.append(meta)
@@ -83,11 +88,13 @@ def main():
             if only and p != 'C14' and p != 'C16' and p != 'C18' and p != 'C19' and p != 'C12':
                 args = ' --only ' + ' '.join(sorted(only))
             t0 = time.time()
-            rc, out = sh('./check %s --tier quick%s' % (p, args), cwd='/verif', env=env, timeout=3600)
+            rc, out = sh('./check %s --tier quick --jobs 8%s' % (p, args), cwd='/verif', env=env, timeout=3600)
             viol = [l for l in out.splitlines() if l.startswith('VIOLATION')]
             det[p] = {'exit': rc, 'violations': len(viol), 'first': (viol[0].split('replay=')[-1].split('/')[-1][:120] if viol else ''),
                       'wall_s': round(time.time() - t0)}
             print(sid, p, rc, len(viol), flush=True)
+            if viol:
+                break           # caught: the remaining candidate checks are not needed for the table
         meta['detected_by'] = det
         meta['detected'] = any(v['violations'] > 0 for v in det.values())
         json.dump(meta, open(mp, 'w'), indent=1)
